@@ -26,3 +26,17 @@ func (c *Claims) Bytesify() []byte {
 	b, _ := key.MarshalCBOR(c)
 	return b
 }
+
+// UnmarshalCBOR implements the CBOR Unmarshaler interface for Claims.
+// Members the struct does not know are skipped by the struct decoder without being looked at,
+// so the data is first decoded as a generic value, which enforces the strict rules of
+// key.UnmarshalCBOR (no duplicate map keys, valid UTF-8) at every depth.
+func (c *Claims) UnmarshalCBOR(data []byte) error {
+	var v any
+	if err := key.UnmarshalCBOR(data, &v); err != nil {
+		return err
+	}
+
+	type claims Claims
+	return key.UnmarshalCBOR(data, (*claims)(c))
+}
